@@ -2988,6 +2988,54 @@ func c17r23(c *Ctx, r *Report) {
 	r.floor("positive returns of isExecuteAction", n, 20)
 }
 
+// c05r17: match offsets count CHARACTERS. A position that is compared with them has to be found by walking
+// the characters of the line (Chars.Get over Chars.Length), not the bytes of its string form: the two agree for
+// ASCII lines (held as bytes) and differ for every other line (D67: the pathname criterion located the last
+// separator as a byte index of Chars.ToString(); `éé/foo-long-name.txt` lost its "match is in the file name"
+// rank against `foo/x.txt`, `ee/foo-long-name.txt` did not).
+func c05r17(c *Ctx, r *Report) {
+	l := c.L
+	r.rule("C05-R17", "D (positions used for sort keys are character positions)", "P1",
+		"in buildResult, no element of a string returned by Chars.ToString is read at a variable index (a byte position); positions are taken with Chars.Get",
+		"the sort key of a line depends on whether it is held as bytes or as runes: a path with an accented directory name ranks differently from the same path without the accent")
+	fn := l.Fn("fzf", "buildResult")
+	if fn == nil {
+		r.unest("anchors", token.NoPos, nil, "anchor buildResult", "cannot resolve")
+		return
+	}
+	n, gets := 0, 0
+	eachInstr(fn, func(in ssa.Instruction) {
+		if call, ok := in.(*ssa.Call); ok && strings.HasSuffix(calleeName(call.Common()), "util.Chars).Get") {
+			gets++
+		}
+		var x, i ssa.Value
+		switch t := in.(type) {
+		case *ssa.Index:
+			x, i = t.X, t.Index
+		case *ssa.Lookup:
+			x, i = t.X, t.Index
+		default:
+			return
+		}
+		if _, isK := constIntVal(i); isK {
+			return
+		}
+		fromToString := false
+		for w := range backwardSlice(x, nil, nil) {
+			if call, ok := w.(*ssa.Call); ok && strings.HasSuffix(calleeName(call.Common()), "util.Chars).ToString") {
+				fromToString = true
+			}
+		}
+		if !fromToString {
+			return
+		}
+		n++
+		r.bad(fmt.Sprintf("%s:byte position #%d in the string form of the line", relName(fn), n), in.(ssa.Instruction).Pos(), fn, "positions are character positions", "a byte of Chars.ToString() is read at a variable index: that index is a byte position, the match offsets it is combined with are character positions")
+	})
+	r.ok(relName(fn)+":positions are taken with Chars.Get", fn.Pos(), fn, fmt.Sprintf("%d calls of Chars.Get, no variable index into the string form", gets))
+	r.floor("calls of Chars.Get in buildResult", gets, 4)
+}
+
 // round8 runs the round-8 rules of a property (own and shared) after the property's older rules.
 func round8(c *Ctx, r *Report, prop string) {
 	switch prop {
@@ -2998,12 +3046,15 @@ func round8(c *Ctx, r *Report, prop string) {
 		c02r14(c, r)
 		c02r15(c, r)
 		c05r14(c, r) // matching never crashes: one match at a time per scratch slab
+	case "C04":
+		c05r17(c, r) // the pathname key does not depend on the representation of the line
 	case "C03":
 		c03r8(c, r)
 		c03r9(c, r)
 		c05r16(c, r) // the bonus of a character does not depend on what other workers are matching
 		c02r14(c, r) // the boundary bonuses stay within the range the score bound is computed from
 	case "C05":
+		c05r17(c, r)
 		c05r14(c, r)
 		c05r15(c, r)
 		c05r16(c, r)
